@@ -759,6 +759,21 @@ func (s *Sim) LiveGoroutines() []string {
 	return out
 }
 
+// NextTimerDue reports when the earliest pending timer event (a deadline, a process exit, a
+// sleep) is due.
+func (s *Sim) NextTimerDue() (time.Duration, bool) {
+	s.absorb()
+	s.mu.Lock()
+	defer s.mu.Unlock()
+	best := time.Duration(-1)
+	for _, ev := range s.events {
+		if ev.Class == "timer" && ev.Due >= 0 && (best < 0 || ev.Due < best) {
+			best = ev.Due
+		}
+	}
+	return best, best >= 0
+}
+
 func (s *Sim) PendingKeys() []string {
 	s.mu.Lock()
 	defer s.mu.Unlock()
